@@ -330,6 +330,9 @@ class Configurator(object):
         return executor
 
     def get_suite(self, suite_name):
+        if suite_name not in self._suites_config:
+            raise ConfigurationError(
+                "An experiment tries to use an undefined benchmark suite: %s" % suite_name)
         return self._suites_config[suite_name]
 
     def get_experiments(self):
